@@ -15,7 +15,7 @@ from attrs import Oracle, node_obs, vertex_set_states
 from plain import gen_ops, make_sd
 
 RULE = ("random prefix history (incl. skip operations), then for random nodes: sets first or seeds first, optional "
-        "reclaim_node_data / pickle round trip in between, and symbolic_attractor_fallback; networks with complex attractors "
+        "reclaim_node_data / pickle round trip / read-only API calls (summary, edge queries) in between, and symbolic_attractor_fallback; networks with complex attractors "
         "(cores), nodes with fixed values, unexpanded nodes with inputs; non-trivial = some attractor set has more than one "
         "state; distinct by case hash")
 ASSUMPTIONS = ["E4 AEON set algebra/transfer_from, E7 transition_guided_reduction + xie_beerel, E6 via the seeds"]
